@@ -941,8 +941,10 @@ let props_of_step (label : sx) (pre : istate) (crashed : bool) : string =
       (match List.assoc_opt (inum i - 1) (txs_of pre.w) with
        | Some tp when tp.t_state = TFailed -> [ "C01"; "C02"; "C05"; "C09"; "C11" ]
        | _ -> [ "C01"; "C02"; "C05"; "C09" ])
-    | A "rec" :: A "master" :: _ | A "rec" :: A "conn" :: _ -> [ "C10" ]
-    | A "rec" :: A "cfg" :: _ -> [ "C04"; "C10"; "C11" ]  (* C11: a pending change is applied once the target is synchronised again *)
+    (* C01/C03: the committed values change only by a commit - every other controller's writes are theirs to watch too *)
+    | A "rec" :: A "master" :: _ -> [ "C01"; "C03"; "C10" ]
+    | A "rec" :: A "conn" :: _ -> [ "C10" ]
+    | A "rec" :: A "cfg" :: _ -> [ "C01"; "C03"; "C04"; "C10"; "C11" ]  (* C11: a pending change is applied once the target is synchronised again *)
     | [ A "rec"; A "prop"; t; i; _; _ ] ->
       (match List.assoc_opt (inum t, inum i) (props_of pre.w) with
        | Some p when p.p_apply <> None -> [ "C02"; "C04"; "C10"; "C11" ]
